@@ -31,9 +31,10 @@ def plan(ctx):
         tol = hd - 1 if be == XOR else m
         sets = list(esets(n, 1, min(tol, 2)))
         if len(sets) > 16:
-            sets = rnd.sample(sets, 8 if not thorough else 64)
+            sets = rnd.sample(sets, min(len(sets), 8 if not thorough else 64))
         if tol > 2:
-            sets += rnd.sample(list(esets(n, tol, tol)), 2 if not thorough else 8)
+            big = list(esets(n, tol, tol))
+            sets += rnd.sample(big, min(len(big), 2 if not thorough else 8))
         for i, ch in enumerate(chunks(sets, 1)):
             obs.append(be_l1_ob(be, k, m, hd, ch, tag="l1rec", idx=i, timeout=1500))
     return {"obs": obs,
